@@ -33,6 +33,8 @@ class EventBufferSpec(KernelSpec):
             for seq in itertools.product("ifn", repeat=k):
                 out.append("".join(seq))
         out += ["s", "ss", "sss"]
+        # wire-built mixed columns (ColumnData::Mixed is never produced by push, but it is part of the wire format)
+        out += ["W:ifsn", "W:", "W:nn"] + (["W:sfin", "W:iiff"] if tier == "thorough" else [])
         if tier == "quick":
             out += ["iinf", "nnii", "fnni", "innn"]
         else:
@@ -41,7 +43,7 @@ class EventBufferSpec(KernelSpec):
 
     def sym_inputs(self, inst, shape):
         vals = []
-        for i, k in enumerate(shape):
+        for i, k in enumerate(shape[2:] if shape.startswith("W:") else shape):
             if k == "i":
                 vals.append(sym("i64", f"i{i}"))
             elif k == "f":
@@ -70,12 +72,16 @@ class EventBufferSpec(KernelSpec):
         if fcd is None:
             raise interp.Unsupported("InputColumn::from_column_data not found")
         fcd = fcd[0]
-        cb = Agg("struct", [Agg("enum", [], name="ColumnData", variant="Empty")], name="ColumnBuffer")
+        wire = shape.startswith("W:")
+        kinds = shape[2:] if wire else shape
+        data0 = Agg("enum", [VecObj([self.anyval(k, v) for k, v in zip(kinds, inp["vals"])])], name="ColumnData", variant="Mixed") if wire else Agg("enum", [], name="ColumnData", variant="Empty")
+        cb = Agg("struct", [data0], name="ColumnBuffer")
         env = {"cb": Cell(cb)}
         calls = []
-        for i, k in enumerate(shape):
-            calls.append((push, lambda env, i=i, k=k: [Ref(env["cb"], (), None, False, True), self.anyval(k, inp["vals"][i]), I("u64", i)], {}))
-        n = len(shape)
+        if not wire:
+            for i, k in enumerate(kinds):
+                calls.append((push, lambda env, i=i, k=k: [Ref(env["cb"], (), None, False, True), self.anyval(k, inp["vals"][i]), I("u64", i)], {}))
+        n = len(kinds)
         calls.append((fcd, lambda env: [env["cb"].v.fields[0], I("u64", n)], {}))
         return run_sequence(ex, pre, env, calls)
 
@@ -92,12 +98,39 @@ class EventBufferSpec(KernelSpec):
             return ("Null", f[0])
         if var in ("NullableInt", "NullableFloat"):
             return (var, f[0], [(p.fields[0], p.fields[1]) for p in f[1].elems])
+        if var == "Mixed":
+            out = []
+            for a in f[0].elems:
+                if a.variant == "Null":
+                    out.append(("n", None))
+                elif a.variant == "Int":
+                    out.append(("i", a.fields[0]))
+                elif a.variant == "Float":
+                    x = a.fields[0]
+                    out.append(("f", x.fields[0] if isinstance(x, Agg) else x))
+                else:
+                    out.append(("s", list(a.fields[0].elems)))
+            return ("Mixed", out)
         return (var, None)
 
     def post(self, inst, shape, inp, value, state=None):
         v = self.view(value)
         var = v[0]
         vals = inp["vals"]
+        if shape.startswith("W:"):
+            kinds = shape[2:]
+            conds = [("a wire-built mixed column arrives as Mixed with one cell per row", B(var == "Mixed" and len(v[1]) == len(kinds)))]
+            if var == "Mixed" and len(v[1]) == len(kinds):
+                for i, (k, (gk, gv)) in enumerate(zip(kinds, v[1])):
+                    if gk != k:
+                        conds.append((f"row {i}: kind preserved", B(False)))
+                    elif k == "i":
+                        conds.append((f"row {i}: integer preserved", binop("Eq", gv, vals[i])))
+                    elif k == "f":
+                        conds.append((f"row {i}: float bits preserved", binop("Eq", I("u64", gv.v), I("u64", vals[i].v))))
+                    elif k == "s":
+                        conds.append((f"row {i}: string preserved", band(B(len(gv) == len(vals[i])), *[binop("Eq", a, b) for a, b in zip(gv, vals[i])])))
+            return conds
         n = len(shape)
         kinds = set(shape)
         nonnull = [i for i, k in enumerate(shape) if k != "n"]
@@ -145,7 +178,7 @@ class EventBufferSpec(KernelSpec):
 
     def random_inputs(self, rng, inst, shape):
         vals = []
-        for k in shape:
+        for k in (shape[2:] if shape.startswith("W:") else shape):
             if k == "i":
                 vals.append(I("i64", rnd_int(rng, "i64")))
             elif k == "f":
@@ -160,7 +193,7 @@ class EventBufferSpec(KernelSpec):
         if inp is None:
             return ("event_buffer_column", [])
         toks = []
-        for k, v in zip(shape, inp["vals"]):
+        for k, v in zip(shape[2:] if shape.startswith("W:") else shape, inp["vals"]):
             if k == "i":
                 toks.append(f"i:{v.v}")
             elif k == "f":
@@ -169,7 +202,7 @@ class EventBufferSpec(KernelSpec):
                 toks.append("s:" + bytes(x.v for x in v).hex())
             else:
                 toks.append("n")
-        return ("event_buffer_column", [",".join(toks) or "-"])
+        return ("event_buffer_column", [("W:" if shape.startswith("W:") else "") + (",".join(toks) or "-")])
 
     def parse_native(self, inst, shape, toks):
         var = toks[0]
@@ -181,6 +214,11 @@ class EventBufferSpec(KernelSpec):
             return ("Float", parse_ints(toks[1], "f64"))
         if var == "Str":
             return ("Str", [] if toks[1] == "-" else [[I("u8", b) for b in bytes.fromhex(x)] for x in toks[1].split(",")])
+        if var == "Mixed":
+            out = []
+            for x in ([] if toks[1] == "-" else toks[1].split(",")):
+                out.append(("n", None) if x == "n" else ("i", I("i64", int(x[2:]))) if x.startswith("i:") else ("f", I("f64", int(x[2:]))) if x.startswith("f:") else ("s", [I("u8", b) for b in bytes.fromhex(x[2:])]))
+            return ("Mixed", out)
         if var in ("NullableInt", "NullableFloat"):
             idx = parse_ints(toks[2], "u64")
             vs = parse_ints(toks[3], "i64" if var == "NullableInt" else "f64")
